@@ -27,6 +27,7 @@ type planNode struct {
 	children []*planNode
 	names    []string
 	elemTerms []int // slice contents (round 2)
+	elemPlans []*planNode // slice contents of composite element type (round 2)
 	sliceVal Val
 	arrTerm  string
 	arrLen   int
@@ -232,6 +233,12 @@ func (g *replayGen) render(n *planNode, vals []ModelVal, strs map[string]string)
 				elems = append(elems, "")
 			}
 		}
+		if len(n.elemPlans) == int(l) && l > 0 {
+			elems = elems[:0]
+			for _, ep := range n.elemPlans {
+				elems = append(elems, g.render(ep, vals, strs))
+			}
+		}
 		if len(elems) != int(l) {
 			return fmt.Sprintf("make(%s, %d)", g.typeStr(ty), l)
 		}
@@ -282,12 +289,27 @@ func (g *replayGen) addContents(n *planNode, vals []ModelVal, st *HeapState) {
 		l := signedOf(vals[n.comps[2]])
 		base := vals[n.comps[0]]
 		el := n.ty.Underlying().(*types.Slice).Elem()
-		if l > 0 && l <= 4096 && base.Int != nil && base.Int.Sign() != 0 && t.mode.scalarSort(el) != "" && !isString(el) {
+		_, elIsPtr := el.Underlying().(*types.Pointer)
+		if l > 0 && l <= 4096 && base.Int != nil && base.Int.Sign() != 0 && t.mode.scalarSort(el) != "" && !isString(el) && !elIsPtr {
 			for i := int64(0); i < l; i++ {
 				loc := t.elemLoc(el, n.sliceVal.Sub[0].S, t.addIdx(n.sliceVal.Sub[1].S, t.mode.intLit64(i, 64)))
 				n.elemTerms = append(n.elemTerms, g.addTerm(t.selectComp(st, loc, compDesc{"", t.mode.scalarSort(el)})))
 			}
+		} else if l > 0 && l <= 16 && base.Int != nil && base.Int.Sign() != 0 && g.depth < 2 {
+			// pointers, strings, structs: one sub-plan per element (their own
+			// slices are not expanded further)
+			switch el.Underlying().(type) {
+			case *types.Pointer, *types.Basic, *types.Struct:
+				g.depth++
+				for i := int64(0); i < l; i++ {
+					loc := t.elemLoc(el, n.sliceVal.Sub[0].S, t.addIdx(n.sliceVal.Sub[1].S, t.mode.intLit64(i, 64)))
+					ev := t.load(st, loc, "true")
+					n.elemPlans = append(n.elemPlans, g.plan(ev, el, st, 1))
+				}
+				g.depth--
+			}
 		}
+		return
 	}
 	for _, c := range n.children {
 		g.addContents(c, vals, st)
